@@ -1,6 +1,8 @@
 import TF.Proofs.PolyInterp
 import TF.Proofs.PolyInterpBary
 import TF.Proofs.PolyInterpEO
+import TF.Proofs.PolyInterpMemo
+import TF.Proofs.PolyInterpDup
 /-!
 # C08 — interpolation, bulk evaluation, zerofiers and coset extrapolation are exact
 
@@ -169,6 +171,32 @@ theorem par_fast_interpolate_spec (t : Thr) (hT : 2 ≤ t.zf) (hRT : 0 < t.rt) (
   intro d v hd hlen hnd hlv
   exact interpolateFuel_spec root hE t hT t.par _ hbev (d.length + 1) d v hd (by omega) hnd hlv
 
+/-- **`batch_fast_interpolate`** (batched divide and conquer with the two `HashMap`s keyed by the first and last
+    point of a half): for pairwise distinct abscissae no key is ever hit twice, and every row of the value matrix is
+    interpolated — for every batch cut-off `≥ 2` (the source has 16; below 2 the code indexes `domain[half - 1]`
+    with `half = 0`), ratio, leaf size `≥ 1`, zerofier cut-off `≥ 2`. -/
+theorem batch_fast_interpolate_spec (t : Thr) (hT : 2 ≤ t.zf) (hRT : 0 < t.rt) (hB : 2 ≤ t.batch)
+    (domain : List K) (matrix : List (List K)) (hne : domain ≠ []) (hn : domain.Nodup)
+    (hrows : ∀ row ∈ matrix, row.length = domain.length) :
+    ∃ res, batchFastInterpolateWith FK E t domain matrix = some res ∧
+      List.Forall₂ (fun row r => Interpolates domain row (denote r)) matrix res :=
+  batchFastInterpolateWith_spec root hE t hT hRT hB domain matrix hne hn hrows
+
+/-- the excluded point sets: with a **repeated abscissa** every strategy panics — `lagrange_interpolate` divides by
+    `summand_eval = 0`, the divide-and-conquer step batch-inverts a zero offset or recurses into a half with the
+    repetition — for `interpolate` and `par_interpolate`, every cut-off, thread count `≥ 1`, leaf size `≥ 1`,
+    zerofier cut-off `≥ 2`. -/
+theorem interpolate_repeated_abscissae_panics (t : Thr) (hT : 2 ≤ t.zf) (hRT : 0 < t.rt) (threads : Nat)
+    (hth : 0 < threads) (domain values : List K) (hdup : ¬ domain.Nodup) :
+    interpolateWith FK E t domain values = none ∧ parInterpolateWith FK E t threads domain values = none ∧
+      (domain.length = values.length → lagrangeInterpolateWith FK E t.zf domain values = none) :=
+  ⟨interpolateFuel_dup root hE t t.seq _
+      (fun p d => batchEvaluateWith_total root hE t.ratio t.rt t.zf hRT hT p d) _ domain values hdup,
+   interpolateFuel_dup root hE t t.par _
+      (fun p d => parBatchEvaluateWith_total root hE t.ratio t.rt t.zf threads hRT hT hth p d) _ domain values hdup,
+   fun hl => lagrangeInterpolateWith_dup root hE t.zf domain values hdup hl⟩
+example : ¬ ([3, 5, 3] : List ℚ).Nodup := by decide
+
 omit hE in
 /-- the excluded inputs: `interpolate` / `par_interpolate` panic on an empty domain and on lists of different
     lengths (the two `assert!`s), for every threshold. -/
@@ -336,7 +364,7 @@ example (root : Nat → Option ℚ) : (Ext.idealNtt root).Lawful ∧ Ext.LawfulN
 /-- … and so are the hypotheses on the points -/
 example : ([0, 1, 2] : List ℚ).Nodup ∧ ([0, 1, 2] : List ℚ).length = ([5, 7, 11] : List ℚ).length
     ∧ ([0, 1, 2] : List ℚ) ≠ [] := by decide
-example : 2 ≤ Thr.src.zf ∧ 0 < Thr.src.rt := by decide
+example : 2 ≤ Thr.src.zf ∧ 0 < Thr.src.rt ∧ 2 ≤ Thr.src.batch := by decide
 
 /-- the thresholds the theorems are instantiated with by the driver come from the source -/
 example : TF.Gen.FAST_ZEROFIER_CUTOFF_THRESHOLD = 100 := rfl
